@@ -884,6 +884,10 @@ impl Engine for C11 {
             p_numbers(),
         ));
         v.push(Phase::new(
+            "every string of <= 5 characters over the alphabet of a token class (path segment, property name, identifier, reference)",
+            p_lexemes(),
+        ));
+        v.push(Phase::new(
             "ordered pairs of generated expressions of <= 2 constructors side by side, unparenthesised, in six list positions",
             p_pairs(),
         ));
